@@ -582,7 +582,10 @@ def eval_next(E, args, node):
         r = z3.Int(fresh_name('first'))
         E.assume(z3.And(r >= 0, r < N, pred(r)))
         jj = z3.Int(fresh_name('j'))
-        E.assumptions_quant(z3.ForAll([jj], z3.Implies(z3.And(jj >= 0, jj < r), z3.Not(pred(jj)))))
+        none_before = z3.ForAll([jj], z3.Implies(z3.And(jj >= 0, jj < r), z3.Not(pred(jj))))
+        E.assumptions_quant(none_before)
+        if ordinal and not E.spec_mode:
+            E.st.ghost.setdefault('facts', {})['next#%d' % ordinal] = [z3.And(r >= 0, r < N, pred(r)), none_before]
         if not E.feasible():
             raise Infeasible()
         E.assign(gen.target, spec_iter.elem(r))
